@@ -12,7 +12,7 @@
         parser.ParseFrugal on a file system
         tags: ok -> 2000 + min(#files in the tree, 99); error -> 2100 + class; panic -> 2900 *)
 From Coq Require Import String ZArith List Bool.
-From FV Require Import Model.ParserStrings Model.ParserAst Model.Parser Model.ParserFiles
+From FV Require Import Model.ParserStrings Model.ParserAst Model.Parser Model.ParserFsys
      Model.CompilerValidate Judge.Wire Judge.JParser.
 Import ListNotations.
 Open Scope Z_scope.
@@ -107,38 +107,7 @@ Fixpoint dec_ftree (t : tok) : ftree :=
   | _ => FTree [] empty_frugal []
   end.
 
-(** ** error classes (tags): which check of the model fired, read off the message prefix *)
-Definition pre (m : bytes) (s : string) : bool := has_prefix (T s) m.
-Definition err_class (m : bytes) : Z :=
-  if pre m "Duplicate service" then 1 else if pre m "Services " then 2
-  else if pre m "Duplicate method" then 3 else if pre m "Methods " then 4
-  else if pre m "Duplicate scope" then 5 else if pre m "Scopes " then 6
-  else if pre m "Duplicate operation" then 7 else if pre m "Operations " then 8
-  else if pre m """vendor""" then 9
-  else if pre m "Duplicate include" then 10
-  else if pre m "Invalid type " then 11
-  else if pre m "Referenced constant" then 12
-  else if pre m "Include " then (if has_suffix (T " not found") m then 13 else 40)
-  else if pre m "Invalid constant name" then 14
-  else if pre m "Invalid alias" then 15
-  else if pre m "Circular typedef" then 16
-  else if pre m "Duplicate field id" then 17
-  else if pre m "Duplicate field name" then 18
-  else if pre m "Invalid return type" then 19
-  else if pre m "Invalid argument type" then 20
-  else if pre m "Invalid exception type" then (if has_suffix (T "not an exception") m then 22 else 21)
-  else if pre m "Invalid extends" then 23
-  else if pre m "Circular extends" then 24
-  else if pre m "Oneway method" then 25
-  else if pre m "Void method" then 26
-  else if pre m "Invalid operation type" then 27
-  else if pre m "Invalid value" then 28
-  else if pre m "open " then 41
-  else if pre m "Circular include" then 42
-  else if pre m "Bad include name" then 43
-  else if pre m "Invalid file" then 44
-  else 50.
-
+(** error classes (tags): [err_class] of Judge/JParser.v *)
 Definition judge_validate (f : list tok) : Z :=
   let tt := nth_tok 1 f in
   let ocode := as_int (nth_tok 2 f) in
